@@ -85,7 +85,7 @@ func isLeaf(e ast.Expr) bool {
 	return false
 }
 
-// classify the converted value by shape: var | frame (x + i*K) | diff (x - y) | expr
+// classify the converted value by shape: var | frame (x + i*K) | diff (x - y) | expr (| accum: set by the caller)
 func classify(fset *token.FileSet, e ast.Expr) (string, string) {
 	e = strip(e)
 	if isLeaf(e) {
@@ -140,19 +140,51 @@ func main() {
 			if fd.Recv != nil && len(fd.Recv.List) == 1 {
 				fname = "(" + text(fset, fd.Recv.List[0].Type) + ")." + fname
 			}
-			defs := map[string]ast.Expr{} // single-assignment locals (name -> right-hand side); nil when assigned twice
+			// innermost enclosing function (declaration or literal) of every call
+			var lits []*ast.FuncLit
 			ast.Inspect(fd.Body, func(n ast.Node) bool {
-				if as, ok := n.(*ast.AssignStmt); ok && len(as.Lhs) == 1 && len(as.Rhs) == 1 {
-					if id, ok := as.Lhs[0].(*ast.Ident); ok {
-						if _, dup := defs[id.Name]; dup || as.Tok != token.DEFINE {
-							defs[id.Name] = nil
-						} else {
-							defs[id.Name] = as.Rhs[0]
-						}
-					}
+				if fl, ok := n.(*ast.FuncLit); ok {
+					lits = append(lits, fl)
 				}
 				return true
 			})
+			scopeOf := func(pos token.Pos) ast.Node {
+				var best ast.Node = fd.Body
+				for _, fl := range lits {
+					if fl.Pos() <= pos && pos < fl.End() && fl.Pos() >= best.Pos() {
+						best = fl
+					}
+				}
+				return best
+			}
+			// assignments to a name inside a scope: the defining right-hand sides (:=) and the increments (+=); ok=false when
+			// the name is assigned in any other way
+			assignsOf := func(scope ast.Node, name string) (defs []ast.Expr, incs []ast.Expr, ok bool) {
+				ok = true
+				ast.Inspect(scope, func(n ast.Node) bool {
+					switch x := n.(type) {
+					case *ast.AssignStmt:
+						for k, l := range x.Lhs {
+							if id, isId := l.(*ast.Ident); isId && id.Name == name {
+								switch {
+								case x.Tok == token.DEFINE && len(x.Lhs) == len(x.Rhs):
+									defs = append(defs, x.Rhs[k])
+								case x.Tok == token.ADD_ASSIGN && len(x.Lhs) == 1:
+									incs = append(incs, x.Rhs[0])
+								default:
+									ok = false
+								}
+							}
+						}
+					case *ast.IncDecStmt:
+						if id, isId := x.X.(*ast.Ident); isId && id.Name == name {
+							ok = false
+						}
+					}
+					return true
+				})
+				return
+			}
 			ast.Inspect(fd.Body, func(n ast.Node) bool {
 				ce, ok := n.(*ast.CallExpr)
 				if !ok {
@@ -170,15 +202,27 @@ func main() {
 				val := ce.Args[0]
 				c.Value = text(fset, val)
 				// a local defined once by arithmetic: show (and classify) what it stands for
+				accum := false
 				if vid, ok := strip(val).(*ast.Ident); ok {
-					if rhs := defs[vid.Name]; rhs != nil {
-						if _, isBin := strip(rhs).(*ast.BinaryExpr); isBin {
-							val = rhs
-							c.Value = vid.Name + " := " + text(fset, rhs)
+					defs, incs, okA := assignsOf(scopeOf(ce.Pos()), vid.Name)
+					if okA && len(defs) == 1 && len(incs) == 0 {
+						if _, isBin := strip(defs[0]).(*ast.BinaryExpr); isBin {
+							val = defs[0]
+							c.Value = vid.Name + " := " + text(fset, defs[0])
+						}
+					} else if okA && len(defs) == 1 && len(incs) > 0 && isLeaf(defs[0]) {
+						// x := start; loop { call(x); x += step }: the running position of a frame inside the unit
+						accum = true
+						c.Value = vid.Name + " := " + text(fset, defs[0])
+						for _, inc := range incs {
+							c.Value += "; " + vid.Name + " += " + text(fset, inc)
 						}
 					}
 				}
 				c.Class, c.Spf = classify(fset, val)
+				if accum {
+					c.Class = "accum"
+				}
 				switch kind {
 				case "muldiv3":
 					if len(ce.Args) != 3 {
@@ -232,7 +276,7 @@ func main() {
 			if i == len(calls)-1 {
 				sep = ""
 			}
-			qty := map[string]string{"var": "QVar", "diff": "QDiff", "expr": "QExpr"}[c.Class]
+			qty := map[string]string{"var": "QVar", "diff": "QDiff", "expr": "QExpr", "accum": "QAccum"}[c.Class]
 			if c.Class == "frame" {
 				qty = "(QFrame " + q(c.Spf) + ")"
 			}
